@@ -125,7 +125,9 @@ def _convert(docs, collect, noteq=False):
     from sigma.backends.test import TextQueryTestBackend as Base
 
     # a class of its own for every conversion: what a conversion leaves behind on its backend CLASS stays with it
-    TextQueryTestBackend = type("C08Backend", (Base,), dict(NOTEQ if noteq else {}, re_flag_prefix=False, re_flags={}))
+    TextQueryTestBackend = type("C08Backend", (Base,), dict(NOTEQ if noteq else {}, re_flag_prefix=False, re_flags={},
+                                                         # the query frame shows a pipeline state variable, with a default for rules that do not set it
+                                                         query_expression="[idx={state[index]}] {query}", state_defaults={"index": "dflt"}))
     from sigma.processing.pipeline import ProcessingPipeline
     from sigma.exceptions import SigmaError
 
